@@ -16,7 +16,7 @@
    parsing agree on every line strict parsing accepts and that the result does not depend on the parser object's
    history. *)
 From Clikit Require Import Base.Prelude Base.Res Model.Conv Model.Format Model.Parser Model.Spell
-     Proofs.ParserLemmas Proofs.SpellDenote Proofs.SpellLemmas.
+     Proofs.ParserLemmas Proofs.SpellDenote Proofs.SpellLemmas Proofs.FormatLemmas Proofs.FmtOkLemmas.
 
 Theorem access_agrees_options : forall f a n m o,
   get_option f n true = Ok o -> get_option f m true = Ok o -> args_option f a n = args_option f a m.
@@ -129,3 +129,63 @@ Theorem spelled_argument_value : forall f d i a r, fmt_ok f = true -> wf_line f 
       else a_default a).
 Proof. exact spelled_argument_value_lemma. Qed.
 Print Assumptions spelled_argument_value.
+
+(* ---- fmt_ok is not an extra assumption: it holds for every format the public API can build ----
+   fmt_inv f = args_wf f (C06: order rules, flags agree with the listing, distinct names, also over the base chain)
+            /\ akeys_inv f (every argument is listed under its own name)
+            /\ opts_inv f  (options are listed under their long names, short names are indexed, no two listed options
+                            of the format and its bases share a long or short name).
+   The invariant holds for the empty builder (over no base or over a base that satisfies it), is kept by every builder
+   operation (bop_valid: the arguments added carry exactly one of REQUIRED / OPTIONAL, which Argument() guarantees, C07)
+   and by build_format; hence by induction for every stack of base formats.  names_wf of C06 is not needed.
+   No reachable format with fmt_ok = false was found (tests by vm_compute before the proof: base formats, twelve
+   command names, arguments named cmd11 / cmd12 / cmd111, multi-valued last argument, optional argument in a base). *)
+Theorem fmt_inv_empty_builder :
+  fmt_inv (empty_builder None) /\ forall bf, fmt_inv bf -> fmt_inv (empty_builder (Some bf)).
+Proof. exact (conj empty_builder_inv_none empty_builder_inv_some). Qed.
+Print Assumptions fmt_inv_empty_builder.
+Theorem fmt_inv_step : forall f o, fmt_inv f -> bop_valid o = true -> fmt_inv (fst (bstep f o)).
+Proof. exact bstep_inv. Qed.
+Print Assumptions fmt_inv_step.
+Theorem fmt_inv_build_format : forall f, fmt_inv f -> fmt_inv (build_format f).
+Proof. exact build_format_inv. Qed.
+Print Assumptions fmt_inv_build_format.
+(* the structural theorem *)
+Theorem wf_implies_fmt_ok : forall f, fmt_inv f -> fmt_ok f = true.
+Proof. exact wf_implies_fmt_ok_lemma. Qed.
+Print Assumptions wf_implies_fmt_ok.
+(* any operation sequence on a builder over any base that satisfies the invariant, then .format: the result satisfies
+   the invariant again (so it can serve as a base) and fmt_ok *)
+Theorem reachable_fmt_ok : forall base ops,
+  match base with Some bf => fmt_inv bf | None => True end -> forallb bop_valid ops = true ->
+  fmt_inv (build_format (brun (empty_builder base) ops)) /\
+  fmt_ok (build_format (brun (empty_builder base) ops)) = true.
+Proof. exact reachable_fmt_ok_lemma. Qed.
+Print Assumptions reachable_fmt_ok.
+(* ArgsFormat(elements, base) *)
+Theorem format_of_elements_fmt_ok : forall es base f,
+  match base with Some bf => fmt_inv bf | None => True end -> forallb element_valid es = true ->
+  format_of_elements es base = Ok f -> fmt_inv f /\ fmt_ok f = true.
+Proof. exact format_of_elements_fmt_ok_lemma. Qed.
+Print Assumptions format_of_elements_fmt_ok.
+(* api_format: builder over no base or over an api_format, any valid operations, then .format *)
+Theorem api_format_fmt_ok : forall f, api_format f -> fmt_ok f = true.
+Proof. exact api_format_fmt_ok_lemma. Qed.
+Print Assumptions api_format_fmt_ok.
+(* parse_spells with fmt_ok replaced by reachability *)
+Theorem parse_spells_reachable : forall f d, api_format f -> wf_line f d = true ->
+  forall lenient, parse f lenient (render d) = Ok (denote f d).
+Proof. exact parse_spells_reachable_lemma. Qed.
+Print Assumptions parse_spells_reachable.
+Theorem parse_spells_wf : forall f d, fmt_inv f -> wf_line f d = true ->
+  forall lenient, parse f lenient (render d) = Ok (denote f d).
+Proof. exact parse_spells_inv_lemma. Qed.
+Print Assumptions parse_spells_wf.
+(* a concrete reachable format (command names, arguments and options spread over a base; a SetArguments and two
+   rejected additions among the operations) and a line using every item form satisfy the hypotheses *)
+Example parse_spells_reachable_not_vacuous :
+  api_format FmtOkExamples.G /\ wf_line FmtOkExamples.G SpellExamples.D1 = true /\
+  fmt_ok FmtOkExamples.G = true /\
+  forall lenient, parse FmtOkExamples.G lenient (render SpellExamples.D1) = Ok (denote FmtOkExamples.G SpellExamples.D1).
+Proof. exact (conj FmtOkExamples.G_api (conj FmtOkExamples.G_line_ok (conj FmtOkExamples.G_fmt_ok_computed FmtOkExamples.G_parses))). Qed.
+Print Assumptions parse_spells_reachable_not_vacuous.
